@@ -226,6 +226,73 @@ class _TupleComps(ast.NodeTransformer):
         return node
 
 
+class _MatchToIf(ast.NodeTransformer):
+    """`match` over a name, an attribute chain or a literal tuple of those, whose cases are built from value patterns,
+    `None` / `True` / `False`, wildcards, or-patterns and (for a tuple subject) sequence patterns of the same length -
+    no captures, no class or mapping patterns - is the if / elif chain of the corresponding comparisons (guards
+    and-ed).  Pure subjects only: they are evaluated once per comparison."""
+
+    @staticmethod
+    def _pure(e) -> bool:
+        if isinstance(e, ast.Name):
+            return True
+        if isinstance(e, ast.Attribute):
+            return _MatchToIf._pure(e.value)
+        return False
+
+    def _cond(self, subj, pat):
+        """test for `pat` matching `subj` (None: not convertible; True: always)"""
+        import copy
+
+        if isinstance(pat, ast.MatchAs) and pat.pattern is None and pat.name is None:
+            return True
+        if isinstance(pat, ast.MatchSingleton):
+            return ast.Compare(left=copy.deepcopy(subj), ops=[ast.Is()], comparators=[ast.Constant(value=pat.value)])
+        if isinstance(pat, ast.MatchValue):
+            return ast.Compare(left=copy.deepcopy(subj), ops=[ast.Eq()], comparators=[copy.deepcopy(pat.value)])
+        if isinstance(pat, ast.MatchOr):
+            parts = [self._cond(subj, p) for p in pat.patterns]
+            if any(p is None for p in parts):
+                return None
+            if any(p is True for p in parts):
+                return True
+            return ast.BoolOp(op=ast.Or(), values=parts)
+        if isinstance(pat, ast.MatchSequence) and isinstance(subj, ast.Tuple) and len(pat.patterns) == len(subj.elts) \
+                and not any(isinstance(p, ast.MatchStar) for p in pat.patterns):
+            parts = [self._cond(e, p) for e, p in zip(subj.elts, pat.patterns)]
+            if any(p is None for p in parts):
+                return None
+            parts = [p for p in parts if p is not True]
+            if not parts:
+                return True
+            return parts[0] if len(parts) == 1 else ast.BoolOp(op=ast.And(), values=parts)
+        return None
+
+    def visit_Match(self, node: ast.Match):
+        self.generic_visit(node)
+        subj = node.subject
+        if not (self._pure(subj) or (isinstance(subj, ast.Tuple) and subj.elts and all(self._pure(e) for e in subj.elts))):
+            return node
+        tests = []
+        for case in node.cases:
+            c = self._cond(subj, case.pattern)
+            if c is None:
+                return node
+            if case.guard is not None:
+                c = case.guard if c is True else ast.BoolOp(op=ast.And(), values=[c, case.guard])
+            tests.append(c)
+        # build the chain from the last case backwards
+        chain: list = []
+        for case, c in reversed(list(zip(node.cases, tests))):
+            if c is True:
+                chain = list(case.body)
+            else:
+                chain = [ast.copy_location(ast.If(test=ast.copy_location(c, case.pattern), body=list(case.body), orelse=chain), case.pattern)]
+        for x in chain:
+            ast.fix_missing_locations(ast.copy_location(x, node) if not hasattr(x, "lineno") else x)
+        return chain or [ast.copy_location(ast.Pass(), node)]
+
+
 class _FoldConst(ast.NodeTransformer):
     """Replace loads of ``name`` by a constant; fold f-strings and getattr/setattr with constant names."""
 
@@ -1044,6 +1111,11 @@ def normalise_tree(tree: ast.Module) -> ast.Module:
         tables = {}
     try:
         _own_field_loops(tree)
+    except Exception:  # noqa: BLE001 - optional normal form
+        pass
+    try:
+        tree = _MatchToIf().visit(tree)
+        ast.fix_missing_locations(tree)
     except Exception:  # noqa: BLE001 - optional normal form
         pass
     tree = _Unroll(tables).visit(tree)
